@@ -87,7 +87,7 @@ def gen_plan(rng, tier, idx, opts):
             ops.append({"op": "get"})
         elif r < 0.345:
             ops.append({"op": "clone", "how": rng.choice(["copy", "deepcopy", "pickle"]), "use_clone": rng.random() < 0.5, "n": rng.randint(1, 20),
-                        "skip_first": rng.choice([0, 0, 1, 7, 1000])})
+                        "skip_first": rng.choice([0, 0, 1, 7, 1000]), "reshape_other": rng.random() < 0.3})
         elif r < 0.36:
             ops.append({"op": "sibling", "n": rng.randint(1, 20)})     # a similar generator is created and used in between
         elif r < 0.38 and not bursty:
@@ -330,6 +330,13 @@ def execute(plan):
                     other, gen = (gen, g2) if op["use_clone"] else (g2, gen)
                     # the object that is NOT used further makes one request: it continues the same process from the same
                     # position, and whatever it does must not disturb the one that is used further
+                    if op.get("reshape_other") and other.shape is not None:
+                        # the object that is not used further has its CURRENT shape assigned again (its phases are redrawn, as
+                        # documented); that is its own business and must not reach the object that IS used further
+                        other.shape = tuple(int(x) for x in other.shape)
+                        other_redrawn = True
+                    else:
+                        other_redrawn = False
                     sk = int(op.get("skip_first") or 0)
                     if sk:
                         other.skip_samples_for_next_generation(sk)
@@ -338,7 +345,13 @@ def execute(plan):
                     if np.shape(s2) != base + (op["n"],):
                         viol("shape", step, "a %s of the generator returned shape %s for a request of %d" % (how, np.shape(s2), op["n"]), kind="clone")
                         break
-                    e2 = float(np.max(np.abs(np.asarray(s2) - model_samples(phi, psi, Fd, Ts, L, k + sk, op["n"]))))
+                    if other_redrawn and other is not gen:
+                        ph_o, ps_o = np.array(other._phi_l, copy=True), np.array(other._psi_l, copy=True)
+                    else:
+                        ph_o, ps_o = phi, psi
+                    if other_redrawn and other is gen:
+                        pass
+                    e2 = float(np.max(np.abs(np.asarray(s2) - model_samples(ph_o, ps_o, Fd, Ts, L, k + sk, op["n"]))))
                     if not (e2 <= tol):
                         viol("value", step, "a %s of the generator taken at position %d does not continue the same process: |h - model| = %.3g > %.3g" % (how, k, e2, tol), kind="clone")
                         break
